@@ -23,6 +23,7 @@ import tlc
 import tracecheck
 
 CHUNK = 2            # frames per chunk in the harness runs
+STYLES = ("explicit", "with", "with-exc")   # how the caller closes the manager
 
 
 def audio_for(player, nchunks, short_tail):
@@ -41,8 +42,9 @@ def expected_bytes(audio):
 class Execution(object):
     """One run of a control program under a scheduling strategy."""
 
-    def __init__(self, h, program, audios, wait, choose, max_steps=3000, fine=False, faults=None):
+    def __init__(self, h, program, audios, wait, choose, max_steps=3000, fine=False, faults=None, style="explicit"):
         self.h = h
+        self.style = style
         self.program = program
         self.audios = audios
         self.wait = wait
@@ -160,41 +162,65 @@ class Execution(object):
             self.obs.append({"k": "end", "t": ts.tid, "n": 0})
 
     # -- the caller's thread ------------------------------------------------------------------------
-    def _main(self):
-        mod = self.h.mod
+    class _Leave(Exception):
+        """raised by the caller's own code inside the with-block (style "with-exc")"""
+
+    def _control(self, io, op):
+        if op[0] == "play":
+            try:
+                io.play(self.audios[len(self.players)], chunk_size=CHUNK)
+                self.obs.append({"k": "ret-play", "t": 0, "n": 0})
+            except RuntimeError:
+                self.obs.append({"k": "ret-play", "t": 0, "n": 1})
+                raise
+        elif op[0] == "pause":
+            self.players[op[1] - 1].pause()
+        elif op[0] == "resume":
+            self.players[op[1] - 1].play()
+        elif op[0] == "stop":
+            self.obs.append({"k": "call-stop", "t": op[1], "n": 0})
+            self.players[op[1] - 1].stop()
+
+    def _after_close(self, io):
+        self.obs.append({"k": "ret-close", "t": 0, "n": 0})
+        self.closed = True
+        self.alive_at_close = [bool(p.is_alive()) for p in self.players]
         try:
-            io = mod.AudioIO(wait=self.wait)
-            self.io = io
-            for op in self.program:
-                if op[0] == "play":
-                    try:
-                        io.play(self.audios[len(self.players)], chunk_size=CHUNK)
-                        self.obs.append({"k": "ret-play", "t": 0, "n": 0})
-                    except RuntimeError:
-                        self.obs.append({"k": "ret-play", "t": 0, "n": 1})
-                        raise
-                elif op[0] == "pause":
-                    self.players[op[1] - 1].pause()
-                elif op[0] == "resume":
-                    self.players[op[1] - 1].play()
-                elif op[0] == "stop":
-                    self.obs.append({"k": "call-stop", "t": op[1], "n": 0})
-                    self.players[op[1] - 1].stop()
-                elif op[0] == "close":
-                    # close(), play() must raise; then the same again: the second close() (what leaving the
-                    # with-block after an explicit close() does) finds `finished` set
-                    for _ in range(2):
-                        self.obs.append({"k": "call-close", "t": 0, "n": 0})
-                        io.close()
-                        self.obs.append({"k": "ret-close", "t": 0, "n": 0})
-                        self.closed = True
-                        self.alive_at_close = [bool(p.is_alive()) for p in self.players]
-                        try:
-                            io.play([0.0], chunk_size=CHUNK)
-                            self.post_play_raised = False
-                        except RuntimeError:
-                            self.post_play_raised = True
-                        self.obs.append({"k": "ret-play", "t": 0, "n": 1 if self.post_play_raised else 0})
+            io.play([0.0], chunk_size=CHUNK)
+            self.post_play_raised = False
+        except RuntimeError:
+            self.post_play_raised = True
+        self.obs.append({"k": "ret-play", "t": 0, "n": 1 if self.post_play_raised else 0})
+
+    def _main(self):
+        """The caller.  style "explicit": io.close(); "with": the control calls sit in a with-block whose exit is
+        the close; "with-exc": the same block is left by an exception of the caller's own code.  In every style a
+        second, explicit close() follows (it finds `finished` set) and play() must raise after each."""
+        mod = self.h.mod
+        ops = [op for op in self.program if op[0] != "close"]
+        try:
+            if self.style == "explicit":
+                io = mod.AudioIO(wait=self.wait)
+                self.io = io
+                for op in ops:
+                    self._control(io, op)
+                self.obs.append({"k": "call-close", "t": 0, "n": 0})
+                io.close()
+            else:
+                try:
+                    with mod.AudioIO(wait=self.wait) as io:
+                        self.io = io
+                        for op in ops:
+                            self._control(io, op)
+                        self.obs.append({"k": "call-close", "t": 0, "n": 0})      # leaving the block closes
+                        if self.style == "with-exc":
+                            raise Execution._Leave()
+                except Execution._Leave:
+                    pass
+            self._after_close(io)
+            self.obs.append({"k": "call-close", "t": 0, "n": 0})
+            io.close()
+            self._after_close(io)
         except schedmod.SchedAbort:
             raise
         except BaseException as ex:
@@ -523,7 +549,7 @@ def m2(ctx, h, cfg, wait, limit=None):
             if checkpoints and all(b["pc"][q] not in INVISIBLE for q in b["pc"]):
                 checkpoints[-1] = spec_proj(b, np_)
         errors = []
-        ex = Execution(h, program, audios, wait, None)
+        ex = Execution(h, program, audios, wait, None, style=STYLES[pi % 3])
         ch = script_choice(script, ex, errors)
         ex.sched.choose = ch
         ex.run()
@@ -744,7 +770,7 @@ def m3(ctx, h, count):
             pl = rng.randint(1, np_)
             if nch[pl - 1] > 0:
                 faults[pl] = rng.randint(1, nch[pl - 1])     # the device write of that chunk raises
-        ex = Execution(h, prog, audios, wait, choose, faults=faults)
+        ex = Execution(h, prog, audios, wait, choose, faults=faults, style=STYLES[(k // 7) % 3])
         ex.run()
         sig = (tuple(prog), tuple((e["proc"], e["op"]) for e in ex.events))
         nontriv = np_ >= 2 or any(o[0] in ("pause", "stop") for o in prog)
@@ -783,7 +809,7 @@ def m3_fine(ctx, h, count):
         prog = random_program(rng, np_, 4, wait)
         choose = random_choice(rng) if k % 2 else pct_choice(rng, np_ + 1, rng.randint(1, 4), 400)
         faults = {1: 1} if (k % 5 == 4 and nch[0] > 0) else {}
-        ex = Execution(h, prog, audios, wait, choose, fine=True, faults=faults)
+        ex = Execution(h, prog, audios, wait, choose, fine=True, faults=faults, style=STYLES[(k // 3) % 3])
         ex.run()
         ctx.count(1, nontrivial_key=("fine", k))
         for clause, detail in ex.monitors():
